@@ -422,6 +422,13 @@ func (t *threadSafeList[T]) MoveAfter(element, position ListElement[T]) {
 
 // PushBackList inserts the values of the other List at the back of this List.
 func (t *threadSafeList[T]) PushBackList(other List[T]) {
+	// another thread-safe list may be modified while it is being pushed: read it as one snapshot (under its read
+	// lock) before taking our own lock - the element-wise loop of the inner list must not see a list that changes
+	// under it, and two lists that push each other must not wait for each other's lock
+	if otherThreadSafeList, ok := other.(*threadSafeList[T]); ok && otherThreadSafeList != t {
+		other = otherThreadSafeList.snapshot()
+	}
+
 	t.mutex.Lock()
 	defer t.mutex.Unlock()
 
@@ -436,6 +443,13 @@ func (t *threadSafeList[T]) PushBackList(other List[T]) {
 
 // PushFrontList inserts the values of the other List at the front of this List.
 func (t *threadSafeList[T]) PushFrontList(other List[T]) {
+	// another thread-safe list may be modified while it is being pushed: read it as one snapshot (under its read
+	// lock) before taking our own lock - the element-wise loop of the inner list must not see a list that changes
+	// under it, and two lists that push each other must not wait for each other's lock
+	if otherThreadSafeList, ok := other.(*threadSafeList[T]); ok && otherThreadSafeList != t {
+		other = otherThreadSafeList.snapshot()
+	}
+
 	t.mutex.Lock()
 	defer t.mutex.Unlock()
 
@@ -446,6 +460,17 @@ func (t *threadSafeList[T]) PushFrontList(other List[T]) {
 	}
 
 	t.list.PushFrontList(other)
+}
+
+// snapshot returns a copy of the List (as it is at one moment) that is not shared with anyone.
+func (t *threadSafeList[T]) snapshot() *list[T] {
+	t.mutex.RLock()
+	defer t.mutex.RUnlock()
+
+	snapshot := newList[T]()
+	snapshot.PushBackList(t.list)
+
+	return snapshot
 }
 
 // ForEach executes the given callback for the value of each element in the List. The iteration is aborted if the
